@@ -214,9 +214,10 @@ theorem cookie_accepted (guid : Bytes) (w : RealWorld) (user cc : Bytes) (e : Pw
     have : (lit "DATA ").length = 5 := by decide
     have : maxAuthLength = 16384 := rfl
     omega
+  have hinit : (Server.init guid w : Server RealWorld Inst).authenticated = false := rfl
   have hconv : convOk real (Server.init guid w)
       [cookieAuthLine user, cookieDataLine w.cfg.sha1 c1.challenge cc c1.cookie, lit "BEGIN"] :=
-    ⟨a1, a2, hl1, a5, a7, hl2, a8, a9, by decide⟩
+    ⟨a1, a2.trans hinit, hl1, a5, a7.trans hinit, hl2, a8, a9, by decide⟩
   have := conv_accepted real guid w (encodeLines [cookieAuthLine user, cookieDataLine w.cfg.sha1 c1.challenge cc c1.cookie, lit "BEGIN"])
     [cookieAuthLine user, cookieDataLine w.cfg.sha1 c1.challenge cc c1.cookie, lit "BEGIN"] hsp hconv reads hall hflat
   simp only [convFinal] at this
